@@ -910,6 +910,8 @@ def lemma_partition_step(ctx):
 
 
 def run(ctx):
+    from . import lean as _lean
+    _lean.require(ctx, "Sums.lean", ["prefix_unique", "sum_cong_rule", "sum_prefix_nonneg", "dot_bound", "dot_nonneg", "elem_le_sum", "gram_psd"])
     lemma_partition_step(ctx)
     m_step(ctx, "full")
     m_step(ctx, "diag")
@@ -924,8 +926,7 @@ def run(ctx):
             hier_predict_range(ctx, nz, ready)
     ctx.trust("scipy multivariate_normal.pdf >= 0 / logpdf finite, or raises for a singular covariance (both outcomes explored)",
               "np.argmax/argmin(axis=1): an index in [0, ncols) per row", "np.linalg.norm(axis=2): (n, K) array",
-              "L-SUM lemmas: congruence, non-negativity, weighted-average bound, entry <= row sum (each true by induction on the summation "
-              "index; not machine-checked), three-index prefix sums as the definition of np.dot",
+              "L-SUM rules: each statement is machine-checked in Lean/Mathlib over Finset sums (lemmas/Sums.lean; prefix_unique identifies the prefix function with the finite sum); what stays trusted is the transcription of those statements into the z3 axioms/rules of pyvc/theories/sums.py; three-index prefix sums are the definition of np.dot",
               "L-MASK: the label-0 and label-1 positions of one prediction partition the positions",
               "L-PART (machine-checked by z3 as lemma:L-PART/*) is *applied* at the end of the split loop: its premises are obligations at "
               "clusters.pop / clusters.extend, the induction over loop iterations that chains the step lemma is by the loop invariant",
@@ -934,7 +935,7 @@ def run(ctx):
               "A1 for the M-step algebra; the initial-responsibility obligation is about exact values (exp(0) = 1) and holds in binary64 too")
     ctx.undecided_clauses += [
         "positive semi-definiteness of the full covariances is proved as: symmetric, non-negative diagonal, and entry = sum_i r_i diff_ia diff_ib / (S+1e-10) "
-        "(a Gram form); the step 'Gram form => v^T C v >= 0' is textbook and not machine-checked here",
+        "(a Gram form, z3) + 'Gram form with r_i >= 0, S > 0 => v^T C v >= 0' (Lean: Sums.lean gram_psd); the reg_covar * I ridge added afterwards keeps it PSD",
         "integer sample weights == replicated points: not a contract on one call; checked only by the native replayer (bounded: 2-3 "
         "dimensional two-blob data, weights in {1,2,3}, same random_state)",
         "cluster_weights_ >= 0 summing to one needs a sum-over-a-partition lemma; checked only by the native replayer (bounded)"]
